@@ -141,6 +141,27 @@ def _decide(args, P, seed, scratch, t0):
                                      obligation='%s::undischarged(resource limit)::failing input found' % r.unit,
                                      message=r.undecided[0][:300], rendered='\n'.join(r.undecided), in_extracted_fn=True,
                                      failing_input=cex))
+        if r.degraded and (r.failures or r.undecided):
+            # splice anchors were lost (the code was restructured): the failing obligations may be an artefact
+            # of the missing ghost text, so nothing is reported without a concrete failing input
+            try:
+                cex = vreplay.search_unit(REPO, scratch, r.unit, seed)
+            except Exception as e:
+                cex = None
+                undecided.append('%s: counterexample search failed: %s' % (r.unit, e))
+            if cex:
+                tie_broken = True
+                fl0 = r.failures[0] if r.failures else dict(fn='?', obligation=r.unit + '::undischarged', message='', rendered='')
+                failures.append(dict(backend='verus', unit=r.unit, fn=fl0.get('fn'), kind='undischarged',
+                                     clause='proof anchors lost on restructured code (%s); failing input found on the real code' % '; '.join(r.degraded)[:200],
+                                     obligation='%s::%s::undischarged(restructured code)::failing input found' % (r.unit, fl0.get('fn')),
+                                     message=fl0.get('message', ''), rendered=fl0.get('rendered', ''), in_extracted_fn=True,
+                                     failing_input=cex))
+            else:
+                undecided.append('%s: splice anchors lost (%s) and no failing input found' % (r.unit, '; '.join(r.degraded)[:300]))
+                tie_broken = True
+            r.failures = []
+            r.undecided = []
         if not tie_broken:
             for u in r.undecided:
                 undecided.append('%s: %s' % (r.unit, u))
